@@ -16,6 +16,7 @@ import re
 
 MAX_DEPTH = 6
 MAX_BLOCKS = 6000
+BIG = 120
 
 
 def _r_place(pl, lb, env):
@@ -180,6 +181,21 @@ class Inliner:
             raw['inlined'].append(dict(f_, blocks=[f_['blocks'][0] + bb, f_['blocks'][1] + bb], locals=[f_['locals'][0] + lb, f_['locals'][1] + lb]))
         return lb, bb
 
+    def _big_and_repeated(self, raw, gid, g):
+        """a large function (incl. its coroutine) that is called several times from one body stays a function of its own:
+        copying it would duplicate every anchor the rules look for (two writers, two temp files, ...)"""
+        size = len(g['blocks'])
+        cid = self.coroutine_of.get(gid)
+        if cid in self.raws:
+            size += len(self.raws[cid]['blocks'])
+        if size < BIG:
+            return False
+        n = 0
+        for blk in self.raws[raw['id']]['blocks']:
+            if not blk.get('cleanup') and blk['term']['k'] == 'call' and (blk['term']['callee'].get('rdef') or blk['term']['callee'].get('def')) == gid:
+                n += 1
+        return n > 1
+
     def _inline_calls(self, raw, stack):
         i = 0
         n0 = len(raw['blocks'])
@@ -199,7 +215,7 @@ class Inliner:
                     self.kept_calls[gid] = self.kept_calls.get(gid, 0) + 1
                 continue
             g = self.flat(gid, stack)
-            if len(raw['blocks']) + len(g['blocks']) > MAX_BLOCKS or len(t['args']) != g['arg_count']:
+            if len(raw['blocks']) + len(g['blocks']) > MAX_BLOCKS or len(t['args']) != g['arg_count'] or self._big_and_repeated(raw, gid, g):
                 self.kept_calls[gid] = self.kept_calls.get(gid, 0) + 1
                 continue
             lb, bb = self._splice(raw, g)
@@ -244,6 +260,8 @@ class Inliner:
             if shell not in self.raws or self.coroutine_of.get(shell) != cid or not self.inlinable(raw, shell):
                 continue
             agg = self._find_coroutine_agg(raw, t['args'][0], cid)
+            if agg is not None and agg.get('_from_shell_call') is False:
+                agg = None
             if agg is None:
                 self.kept_calls[cid] = self.kept_calls.get(cid, 0) + 1
                 continue
